@@ -821,7 +821,7 @@ def r_count_spatial(cx):
                     hi = r[2][-1] if r[0] == "agg" and r[2] else None
                     if not (hi is not None and is_const_num(mir.strip_refs(hi)) and mir.strip_refs(hi)[2] <= 3 and "RangeTo" in str(r[1])):
                         bad = "a slice that is not limited to the first three elements"
-                elif src[0] == "proj" and src[2] == ("f", 0):
+                elif (src[0] == "proj" and src[2] == ("f", 0)) or (src[0] == "refplace" and src[3] and src[3][-1] == ("f", 0)):
                     bad = "all four elements of the result"
                 cx.ob("R-COUNT-SPATIAL", "%s/count%d" % (fn.rsplit("::", 1)[-1], k), bad is None,
                       "%s counts a tuple by its spatial results" % fn.rsplit("::", 1)[-1] if bad is None else
